@@ -70,6 +70,7 @@ fn thr_gen_cfg(rng: &mut Rng, legacy: bool) -> GenCfg {
         yields: rng.chance(1, 4),
         op_b: rng.chance(1, 3),
         render: rng.chance(1, 4),
+        channels: rng.chance(1, 4),
     }
 }
 
@@ -83,7 +84,7 @@ fn strip_takes(c: &mut Cmd) {
                     *take = None;
                     stmts(body);
                 }
-                Stmt::Spawn { task, .. } => stmts(&mut task.stmts),
+                Stmt::Spawn { task, .. } | Stmt::SpawnChan { task, .. } => stmts(&mut task.stmts),
                 Stmt::JoinAll(ts) | Stmt::SelectFirst(ts) => ts.iter_mut().for_each(|t| stmts(&mut t.stmts)),
                 Stmt::Emit { cont: Some(c), .. } => strip_takes(c),
                 _ => {}
